@@ -21,7 +21,8 @@ PAIRS = ["memEq", "memCmp", "memCmpRev", "memIsZero", "memIsRep", "hexEq", "hexE
          "zzAddMod", "zzSubMod", "zzAddWMod", "zzSubWMod", "zzNegMod", "zzDoubleMod", "zzHalfMod",
          "zzRedCrand", "zzRedBarr", "zzRedMont", "zzRedCrandMont",
          "u16CTZ", "u16CLZ", "u32CTZ", "u32CLZ", "u64CTZ", "u64CLZ"]
-ALLOWED_DECISION = {"beltDWPUnwrap", "beltCHEUnwrap", "beltKWPUnwrap"}
+ALLOWED_DECISION = {"beltDWPUnwrap": "beltDWPUnwrap", "beltCHEUnwrap": "beltCHEUnwrap", "beltKWPUnwrap": "beltKWPUnwrap",
+                    "beltKWPUnwrap0": "beltKWPUnwrap"}          # target -> function whose own final verdict branch is allowed
 
 
 # ---------------------------------------------------------------------------------------------------------------
@@ -331,7 +332,7 @@ def unit_taint(ctx):
                 # read the symbols of the executable (e.g. the build directory was replaced under it): nothing can be attributed
                 raise Harness("memcheck reported an error without any symbolised frame for %s (symbols unreadable?)" % tname)
             for kind, inner, entry, cnt, fns in cond:
-                if tname in ALLOWED_DECISION and inner == tname:
+                if ALLOWED_DECISION.get(tname) == inner:
                     tallied[tname]["allowed_decision_branches"] = tallied[tname].get("allowed_decision_branches", 0) + cnt
                     continue
                 ctx.violation("ct:tainted-branch:%s:%s" % (inner, tname) + ("@" + P["build"] if P.get("build") else ""),
@@ -379,7 +380,7 @@ def unit_trace(ctx):
 # ---------------------------------------------------------------------------------------------------------------
 
 SYM_TARGETS = ["beltMACStepV", "beltHashStepV", "beltHMACStepV", "bashHashStepV", "beltDWPStepV", "beltCHEStepV",
-               "beltDWPUnwrap", "beltCHEUnwrap", "beltKWPUnwrap", "beltModes", "beltModes16", "bash"]
+               "beltDWPUnwrap", "beltCHEUnwrap", "beltKWPUnwrap", "beltKWPUnwrap0", "beltModes", "beltModes16", "bash"]
 
 
 def jobs(tier, scale=1.0):
